@@ -42,6 +42,16 @@ def judge(rec, kind, e, fault):
         return None, False                      # construction / wait / terminate misbehaving: C20 / C04
     if "hang" in rec and "obs1" not in rec:
         return None, False
+    if fault == 3 and "obs_early" in rec:
+        # observation made while the forwarding thread was still busy: if it says "dead" the outcome must already be definite
+        if rec.get("obs_early_err"):
+            return "c01.%s-while-forwarding-thread-busy" % rec["obs_early_err"], True
+        oe = rec["obs_early"]
+        if oe[0] is False or rec.get("early_wait") is True:
+            if oe[1] is None:
+                return "c01.observed-dead-but-has_error-None", True
+            if rec.get("obs1") is not None and not wsim.obs_same(oe, rec["obs1"]):
+                return "c01.outcome-changes-after-observed-dead", True
     if not rec.get("dead"):
         return None, False                      # never observed dead
     if "hang" in rec:
@@ -111,7 +121,7 @@ def judge(rec, kind, e, fault):
 def make_h(kind):
     def h(e, fault, k):
         with notrace():
-            e_, fault_ = conc(e, len(ENDINGS)), conc(fault, 3)
+            e_, fault_ = conc(e, len(ENDINGS)), conc(fault, 4)
             k_ = conc(k, KMAX[kind] + 1) if fault_ else 0
             ev("c01", wsim.KIND_NAMES[kind], ending_name(e_), fault_, k_)
             rec = wscen.scenario(kind, ENDINGS[e_][0], ENDINGS[e_][1], fault_, k_)
@@ -149,8 +159,13 @@ _FUNCS = ["pyworkers.worker:Worker.result", "pyworkers.worker:Worker.error", "py
 
 def _harness(kind):
     name = wsim.KIND_NAMES[kind]
-    params = OrderedDict([("e", (0, len(ENDINGS) - 1)), ("fault", (0, 2)), ("k", (0, KMAX[kind]))])
-    flt = (lambda f: f["fault"] != 2) if wsim.is_thread_kind(kind) else None
+    params = OrderedDict([("e", (0, len(ENDINGS) - 1)), ("fault", (0, 3)), ("k", (0, KMAX[kind]))])
+    if wsim.is_thread_kind(kind):
+        flt = (lambda f: f["fault"] in (0, 1))
+    elif wsim.is_remote_kind(kind):
+        flt = None
+    else:
+        flt = (lambda f: f["fault"] != 3)
     quick = {"ranges": {"e": (0, 8)}, "partition": ["fault", "e"], "timeout": 300, "twin_fixed": {"fault": 1, "e": 0}}
     thorough = {"partition": ["fault", "e"], "timeout": 900, "twin_fixed": {"fault": 1, "e": 0}}
     if flt:
@@ -198,6 +213,8 @@ SPEC = PropSpec(
         "graceful terminate: the child is parked at its k-th injection point, the parent then calls the real terminate(); the asynchronous "
         "exception is raised at the child's next injection point after PyThreadState_SetAsyncExc was called for it",
         "kill: the child process dies at its k-th injection point (also between the two halves of a pipe frame); its descriptors are closed",
+        "slow forwarding thread (remote kinds, fault 3): the parent-side frontend thread sleeps 3 model seconds at its k-th statement while the parent "
+        "calls wait(timeout=1) and observes; 'dead' observed then must come with a definite, final outcome",
         "virtual OS contracts: vf/simos.py (pipes, processes, sockets, threads, events, clock)",
         "values/exceptions come from a menu (vf/targets.py) incl. an exception class that cannot be rebuilt and a value that cannot be loaded on the parent side",
     ],
